@@ -1,0 +1,42 @@
+//go:build verif
+
+package functions
+
+// Contracts for the verifier in /verif (comment-only file; no declarations).
+
+//@ func partitionDemand(input, demand, outflow, extraction)
+//@   noalias
+//@   safety C16
+//@   requires input.len == demand.len && input.len == outflow.len && input.len == extraction.len
+//@   requires forall(t, 0, input.len, input.at(t) >= 0)
+//@   assigns outflow.cells, extraction.cells
+//@   ensures [C16.demand-sum] forall(t, 0, input.len, outflow.at(t) + extraction.at(t) == input.at(t))
+//@   ensures [C16.demand-bounds] forall(t, 0, input.len, extraction.at(t) <= demand.at(t) && extraction.at(t) <= input.at(t) && outflow.at(t) >= 0)
+//@   loop 0 invariant 0 <= i && i <= n
+//@   loop 0 invariant forall(t, 0, i, outflow.at(t) + extraction.at(t) == input.at(t))
+//@   loop 0 invariant forall(t, 0, i, extraction.at(t) <= demand.at(t) && extraction.at(t) <= input.at(t) && outflow.at(t) >= 0)
+
+//@ func inputNode(input, output)
+//@   noalias
+//@   safety C16
+//@   requires input.len == output.len
+//@   assigns output.cells
+//@   ensures [C16.input-identity] forall(t, 0, input.len, output.at(t) == input.at(t))
+
+//@ func sum(i1, i2, out)
+//@   noalias
+//@   safety C16
+//@   requires i1.len == i2.len && i1.len == out.len
+//@   assigns out.cells
+//@   ensures [C16.sum] forall(t, 0, i1.len, out.at(t) == i1.at(t) + i2.at(t))
+//@   loop 0 invariant 0 <= day && day <= n
+//@   loop 0 invariant forall(t, 0, day, out.at(t) == i1.at(t) + i2.at(t))
+
+//@ func gate(trigger, incoming, outgoing)
+//@   noalias
+//@   safety C16
+//@   requires trigger.len == incoming.len && trigger.len == outgoing.len
+//@   assigns outgoing.cells
+//@   ensures [C16.gate-mask] forall(t, 0, trigger.len, outgoing.at(t) == ite(trigger.at(t) > 0, incoming.at(t), 0.0))
+//@   loop 0 invariant 0 <= day && day <= n
+//@   loop 0 invariant forall(t, 0, day, outgoing.at(t) == ite(trigger.at(t) > 0, incoming.at(t), 0.0))
